@@ -157,3 +157,71 @@ def cv2_resize_area_stub(ctx, name="cv2.resize(src, (w, h), interpolation=INTER_
                 raise Unsupported("cv2.resize stub: non-integer resampling ratio")
         return out
     return resize
+
+
+def rotation_stub(ctx, name="scipy Rotation.from_rotvec(theta * e_k).as_matrix(): right-handed rotation about coordinate axis k with (c, s) = (cos theta, sin theta) constrained only by c^2 + s^2 = 1; from_rotvec(-theta * e_k) uses (c, -s)"):
+    """Assumed contract of scipy.spatial.transform.Rotation for rotation vectors along a coordinate axis."""
+    import z3
+    from scipy.spatial.transform import Rotation as Real
+    from .sym import PathCtx, Unsupported
+    table = {}
+
+    def cs(t):
+        t = z3.simplify(t)
+        key = t.sexpr()
+        if key in table:
+            return table[key]
+        neg = z3.simplify(-t).sexpr()
+        if neg in table:
+            c, s = table[neg]
+            table[key] = (c, -s)
+            return table[key]
+        if z3.is_rational_value(t) and t.numerator_as_long() == 0:
+            table[key] = (z3.RealVal(1), z3.RealVal(0))
+            return table[key]
+        k = len(table)
+        c, s = z3.Real(f"__cos{k}"), z3.Real(f"__sin{k}")
+        PathCtx.cur.add(c * c + s * s == 1)
+        table[key] = (c, s)
+        return table[key]
+
+    class _Rot:
+        def __init__(self, k, t):
+            self.k, self.t = k, t
+
+        def as_matrix(self):
+            c, s = cs(self.t)
+            C, S = Sym(c), Sym(s)
+            m = np.empty((3, 3), dtype=object)
+            m[...] = 0
+            i, j = [(1, 2), (2, 0), (0, 1)][self.k]      # right-handed rotation about axis k
+            m[self.k, self.k] = 1
+            m[i, i], m[i, j], m[j, i], m[j, j] = C, -S, S, C
+            return m
+
+    class RotationStub:
+        @staticmethod
+        def from_rotvec(vec, *a, **k):
+            v = np.asarray(vec)
+            if not _has_sym(v):
+                return Real.from_rotvec(v.astype(float), *a, **k)
+            ctx.stub_used(name)
+            table_reset = PathCtx.cur
+            if getattr(RotationStub, "_ctx", None) is not table_reset:
+                table.clear()
+                RotationStub._ctx = table_reset
+            nz = []
+            for idx, e in enumerate(v.flat):
+                te = z3.simplify(lift(e))
+                if (z3.is_int_value(te) and te.as_long() == 0) or (z3.is_rational_value(te) and te.numerator_as_long() == 0):
+                    continue
+                nz.append((idx, te))
+            if len(nz) == 0:
+                return _Rot(0, z3.RealVal(0))
+            if len(nz) != 1:
+                raise Unsupported("Rotation stub: rotation vector not along a coordinate axis")
+            kk, t = nz[0]
+            if t.is_int():
+                t = z3.ToReal(t)
+            return _Rot(kk, t)
+    return RotationStub
